@@ -414,7 +414,7 @@ theorem sim_extendFunctionEnv {σ : Sh} {s t : St} (hR : StR σ s t) (f : FuncVa
   intro pfs pft hpte _ hpfr
   rw [hpfr.depth]
   refine SimAt.bind (sim_newFrame hR ?_ ?_) ?_
-  · exact ⟨rfl, rfl, rfl, rfl, rfl, fun _ => ⟨rfl, rfl, rfl⟩⟩
+  · exact ⟨rfl, rfl, rfl, rfl, rfl, fun _ => ⟨rfl, rfl, rfl⟩, by simp only [hcfr.localFunc]⟩
   · refine ⟨?_, fun k e n h => by cases h⟩
     intro o ho
     cases ho
